@@ -18,6 +18,7 @@
 //
 // output:  O <per program: outputs on train rows then query rows>  R <results>
 //   T: q <pred>...  t <pred>...  acc <hex>  fit <hex|->  l <pred>... (lambdify'ed model on the queries)
+//      [var <hex>... per-class variance, gauss/ind only]
 //   H: after each op  "| <slot>=<pred>,<pred>.. <slot>=..."
 //   pred: regression a value token; classification <label>/<hex64 sureness>
 #include <algorithm>
@@ -238,6 +239,12 @@ std::string t_case(const casedata &c, MK mk, EV *ev)
   out += " l";
   if (lam)
     for (const auto &r : c.query) out += " " + predict_dyn(lam.get(), mk_example(r), cls);
+  if constexpr (std::is_same_v<M, gaussian_lambda_f<IND>>)
+  {
+    // per-class statistics the confidences are computed from
+    out += " var";
+    for (const auto &g : m->gauss_dist_) out += " " + showd(g.variance());
+  }
   return out;
 }
 
